@@ -170,7 +170,7 @@ def to4(R, t, bottom=(0.0, 0.0, 0.0, 1.0)):
 
 def gen_cases(ctx):
     r = ctx.rng
-    k = 4 if ctx.thorough else 1
+    k = 25 if ctx.thorough else 1
     # corpus: hand-made cases at the decision points
     yield {"kind": "member", "what": "reflection", "m": to4([[1.0, 0, 0], [0, 1.0, 0], [0, 0, -1.0]], [0.0, 0, 0]), "s": None}
     yield {"kind": "member", "what": "bottom", "m": to4(np.eye(3).tolist(), [1.0, 2.0, 3.0], (0.0, 0.0, 0.0, 2.0)), "s": None}
@@ -519,6 +519,10 @@ def judge_se3(ctx, case, impl, outs):
         else:
             continue
         break
+    ra, rb = [row[:3] for row in a[:3]], [row[:3] for row in b[:3]]
+    d = mdiff(mmul(ra, F(impl["relso3"])), rb)
+    if d > rt:
+        ctx.fail(case, "relative-is-inverse-times", f"A·relative_so3(A,B) differs from B by {float(d):.3e}")
     if not impl["is_se3"] or not impl["is_so3"]:
         ctx.fail(case, "member-accept", "a genuine SE(3) element is rejected by is_se3/is_so3")
     if not impl["unchanged"]:
